@@ -260,7 +260,9 @@ class ModelReplayer:
                 elif name == "setmap":
                     m = sl[a[0]].mapping
                     n = len(m)
-                    sl[a[0]].set_mapping({k: (n - 1 - v if a[1] == "rev" else (v + 1) % n) for k, v in m.items()})
+                    given = {k: (n - 1 - v if a[1] == "rev" else (v + 1) % n) for k, v in m.items()}
+                    sl[a[0]].set_mapping(given)
+                    given["__poked__"] = 98            # the caller's dict stays the caller's (shows up as `poked` if aliased)
                 elif name == "poke":
                     self.poke(sl[a[0]])
                 elif name == "ctor":
@@ -289,7 +291,7 @@ class ModelReplayer:
                     os.environ["JTIOSUE_QUBOVERT_VERIF"] = "1"
                     del _pubo._VERIF_CERTS[:]
                     if a[1]:
-                        res = obj.to_quso() if type(obj).__name__ in SPIN else obj.to_qubo()
+                        res = obj.to_qubo()       # the reduced BOOLEAN form, also of spin models (integer coefficients)
                     else:
                         res = obj.to_enumerated()
                     # ancilla labels the reduction says it created (hook H1)
